@@ -57,12 +57,14 @@ pub struct OnceWorld {
     value: Option<u64>,
     resolved_by: BTreeMap<usize, Outcome>,
     set_args: BTreeMap<usize, u64>,
+    last_drops: usize,
+    dropped_unfinished_set: bool,
 }
 
 impl OnceWorld {
     pub fn new() -> Self {
         DROPS.with(|d| d.set(0));
-        OnceWorld { futs: BTreeMap::new(), gates: BTreeMap::new(), kinds: BTreeMap::new(), cell: Some(Box::new(OnceCell::new())), metas: Metas::new(), nf: 0, inits_since_take: 0, running: vec![], value: None, resolved_by: BTreeMap::new(), set_args: BTreeMap::new() }
+        OnceWorld { futs: BTreeMap::new(), gates: BTreeMap::new(), kinds: BTreeMap::new(), cell: Some(Box::new(OnceCell::new())), metas: Metas::new(), nf: 0, inits_since_take: 0, running: vec![], value: None, resolved_by: BTreeMap::new(), set_args: BTreeMap::new(), last_drops: 0, dropped_unfinished_set: false }
     }
     fn cellref(&self) -> &'static OnceCell<Payload> {
         unsafe { &*(&**self.cell.as_ref().unwrap() as *const OnceCell<Payload>) }
@@ -193,6 +195,8 @@ impl World for OnceWorld {
             }
             "dropfut" => match num(1) {
                 Some(f) if self.futs.contains_key(&f) => {
+                    // a set future that has not finished still owns its argument: dropping it drops the argument
+                    self.dropped_unfinished_set = self.kinds.get(&f) == Some(&OK::Set) && self.metas[&f].st != St::Done;
                     self.futs.remove(&f); self.gates.remove(&f); self.kinds.remove(&f); self.metas.remove(&f); self.resolved_by.remove(&f);
                     "-".into()
                 }
@@ -283,6 +287,7 @@ impl World for OnceWorld {
 
     fn after_op(r: &mut Runner<Self>, op: &str, res: &str) {
         let toks: Vec<&str> = op.split_whitespace().collect();
+        let was_init = r.w.value.is_some();
         // who is running a closure now (gate reached, future still pending)
         let running: Vec<usize> = r.w.futs.keys().copied().filter(|f| r.w.gate_running(*f)).collect();
         // C04: at most one initialiser runs at a time, none once initialised
@@ -358,6 +363,25 @@ impl World for OnceWorld {
                     match r.w.resolved_by.get(&f) { Some(Outcome::Panic) => {}, _ => r.violation("C08", format!("future {} panicked although its own initialiser did not", f)) }
                 }
             }
+        }
+        // C04, last clause: every payload (the stored value, a rejected or cancelled set argument) is dropped exactly once —
+        // operation by operation: a value handed back by set (the harness drops it), the argument of a set future dropped
+        // before it finished, take, the drop of an initialised cell drop ONE payload; nothing else drops any
+        {
+            let now = DROPS.with(|d| d.get());
+            let actual = now.wrapping_sub(r.w.last_drops);
+            let expected: usize =
+                if res == "X" { 0 }
+                else if toks[0] == "dropfut" && r.w.dropped_unfinished_set { 1 }
+                else if toks[0] == "poll" && res.starts_with('E') && toks.get(1).and_then(|f| f.parse::<usize>().ok()).map(|f| r.w.kinds.get(&f) == Some(&OK::Set)).unwrap_or(false) { 1 }
+                else if toks[0] == "take" && res.starts_with('V') { 1 }
+                else if toks[0] == "dropcell" && was_init { 1 }
+                else { 0 };
+            if actual != expected {
+                r.violation("C04", format!("`{}` dropped {} payload value(s), expected {}: a stored value / a set argument must be dropped exactly once (by the cell's drop, take, the hand-back of set, or the drop of an unfinished set future) and by nothing else", op, actual, expected));
+            }
+            r.w.last_drops = now;
+            r.w.dropped_unfinished_set = false;
         }
         if r.w.metas.values().any(|m| m.st == St::Done) { r.stats.done_kept += 1; }
         r.w.running = running;
